@@ -268,3 +268,52 @@ M('c18_cart_from_abc', 'C18', (OR, "            self.vectors = lattice.get_carte
 M('c18_spherical_elevation_from_xy', 'C18', (U, "    el = np.arcsin(z / r)\n", "    el = np.arctan2(z, np.sqrt(x**2 + y**2) + 1e-3)\n"))
 M('c18_autocorr_abs', 'C18', (U, "        autocorr_c = autocorr_c[:n_times, :]\n", "        autocorr_c = np.abs(autocorr_c[:n_times, :])\n"))
 M('c18_symmetrize_drops_last_op', 'C18', (OR, "        n_symops = sym_ops.shape[2]\n", "        if sym_ops.shape[2] > 16:\n            sym_ops = sym_ops[:, :, :-1]\n        n_symops = sym_ops.shape[2]\n"))
+# ---- C20 -------------------------------------------------------------------------------------
+CA = 'caching.py'
+M('c20_key_on_id', 'C20', (CA, """        @functools.lru_cache(maxsize, typed)
+        def _func(_self, *args, **kwargs):
+            return func(_self(), *args, **kwargs)
+
+        @functools.wraps(func)
+        def inner(self, *args, **kwargs):
+            return _func(weakref.ref(self), *args, **kwargs)
+""", """        _objs = {}
+
+        @functools.lru_cache(maxsize, typed)
+        def _func(_self, *args, **kwargs):
+            return func(_objs[_self](), *args, **kwargs)
+
+        @functools.wraps(func)
+        def inner(self, *args, **kwargs):
+            _objs[id(self)] = weakref.ref(self)
+            return _func(id(self), *args, **kwargs)
+"""))
+M('c20_strong_ref', 'C20', (CA, "            return _func(weakref.ref(self), *args, **kwargs)\n", "            _keep.append(self) if len(_keep) < 64 else None\n            return _func(weakref.ref(self), *args, **kwargs)\n"), (CA, "    def wrapper(func):\n", "    _keep = []\n\n    def wrapper(func):\n"))
+M('c20_drop_args_from_key', 'C20', (CA, """        @functools.lru_cache(maxsize, typed)
+        def _func(_self, *args, **kwargs):
+            return func(_self(), *args, **kwargs)
+
+        @functools.wraps(func)
+        def inner(self, *args, **kwargs):
+            return _func(weakref.ref(self), *args, **kwargs)
+""", """        _last = {}
+
+        @functools.lru_cache(maxsize, typed)
+        def _func(_self):
+            a, k = _last['call']
+            return func(_self(), *a, **k)
+
+        @functools.wraps(func)
+        def inner(self, *args, **kwargs):
+            _last['call'] = (args, kwargs)
+            return _func(weakref.ref(self))
+"""))
+M('c20_plain_lru_cache', 'C20', (CA, """        @functools.wraps(func)
+        def inner(self, *args, **kwargs):
+            return _func(weakref.ref(self), *args, **kwargs)
+
+        return inner
+""", """        return functools.lru_cache(maxsize, typed)(func)
+"""))
+M('c20_kwargs_dropped', 'C20', (CA, "            return _func(weakref.ref(self), *args, **kwargs)\n", "            if kwargs and 'z_ion' in kwargs:\n                return _func(weakref.ref(self), *args, dimensions=kwargs.get('dimensions', 3), z_ion=1)\n            return _func(weakref.ref(self), *args, **kwargs)\n"))
+M('c20_metrics_stale_trajectory_key', 'C20', ('metrics.py', "    @weak_lru_cache()\n    def particle_density(self)", "    @functools.lru_cache()\n    def particle_density(self)"), ('metrics.py', "import typing\n", "import functools\nimport typing\n"))
